@@ -71,14 +71,11 @@ func genShape(r *engine.RNG, kind string, c06 bool) *engine.Shape {
 		for i := 0; i < na; i++ {
 			a := engine.Shape{Kind: "raddr", U: []uint64{uint64(r.Intn(256)), 0}, Str: r.PickStr("NTCP2", "SSU2", "x", "ntcp2", "=;", strings.Repeat("S", 255), "\x00")}
 			a.Opts, _ = adapters.Options(r, 5)
-			if c06 {
-				a.Opts = dropEmptyKeys(a.Opts)
-			}
 			sh.Sub = append(sh.Sub, a)
 		}
 		sh.Opts, sh.Unsorted = adapters.Options(r, 8)
 		if c06 {
-			sh.Opts, sh.Unsorted = dropEmptyKeys(sh.Opts), false
+			sh.Unsorted = false
 		}
 	case "leaseset":
 		sh.Ref = adapters.RefKnob(r)
@@ -114,7 +111,7 @@ func genShape(r *engine.RNG, kind string, c06 bool) *engine.Shape {
 			if r.Chance(1, 2) {
 				sh.Opts, sh.Unsorted = adapters.Options(r, 6)
 				if c06 {
-					sh.Opts, sh.Unsorted = dropEmptyKeys(sh.Opts), false
+					sh.Unsorted = false
 				}
 			}
 		} else {
@@ -136,16 +133,6 @@ func genShape(r *engine.RNG, kind string, c06 bool) *engine.Shape {
 		sh.Offline = &engine.OfflineShape{Transient: r.PickInt(7, 7, 11, 8, 0, 1, 2, 3, 4), Expires: max(1, edge32(r)), Seed: 100 + uint64(r.Intn(8))}
 	}
 	return sh
-}
-
-func dropEmptyKeys(o [][2]string) [][2]string {
-	var out [][2]string
-	for _, kv := range o {
-		if kv[0] != "" {
-			out = append(out, kv)
-		}
-	}
-	return out
 }
 
 var byteFaults = []string{"bitflip", "bitflip", "rewrite", "mapping_slack", "mapping_slack", "cert_slack", "cert_slack", "peer_slack", "element_smuggle", "element_smuggle", "type_confusion", "type_confusion", "flag_downgrade", "after_sig", "sig_swap", "key_subst", "replay", "revocation_key_forgery"}
